@@ -642,6 +642,12 @@ func (e *Engine) typeAssert(st *State, fr *Frame, x *ssa.TypeAssert) Value {
 		}
 		ok := c.And(c.Not(c.Eq(iv, e.i64(0))), c.Eq(e.dynType(iv), e.typeTag(at)))
 		val := e.projLoad(iv, "ifval$"+typeName(at), at)
+		if _, isPtr := under(at).(*types.Pointer); isPtr {
+			// assumption A-typed-nil: interfaces in this code base never hold typed nil pointers
+			if vt, isT := val.(*smt.Term); isT {
+				st.Assume(c.Implies(ok, c.Not(c.Eq(vt, e.i64(0)))))
+			}
+		}
 		return mk(val, ok)
 	}
 	e.fail("TypeAssert on %T", v)
@@ -858,7 +864,15 @@ func (e *Engine) obligeNamed(st *State, fr *Frame, kind, label string, goal *smt
 	}
 	ob.Tags = append(ob.Tags, V.Tags...)
 	if len(tags) > 0 {
-		ob.Tags = append([]string(nil), tags...)
+		var ts []string
+		for _, t := range tags {
+			if t != "assume" {
+				ts = append(ts, t)
+			}
+		}
+		if len(ts) > 0 {
+			ob.Tags = ts
+		}
 	}
 	ob.ID = len(e.Obligs) + 1
 	e.Obligs = append(e.Obligs, ob)
